@@ -9,7 +9,7 @@ namespace Pdb.Conc.Pipe
 
 def lHead : LPc → Bool → Bool
   | .thr, _ | .lqAbout, _ | .lqParked, _ | .pop, _ | .write1 _, _ | .write2 _, _ | .err _, _ => true
-  | .reindex, mc | .loop, mc => mc
+  | .reindex, mc | .loop, mc | .reClear, mc => mc
   | _, _ => false
 def fHead : FPc → Bool → Bool
   | .flOne, _ | .flSignal, _ | .err _, _ => true
@@ -87,10 +87,12 @@ macro "gpfin" : tactic => `(tactic| (
               | (gpsimp; first | done | assumption | omega | grind)
               | (split <;> gpsimp; done)))))
 
-theorem gp_reindexStep {cfg : Cfg} {s : St} (hI : GP cfg s) : GP cfg (reindexStep s) := by
+theorem gp_reindexStep {cfg : Cfg} {s : St} (hI : GP cfg s) (hp : s.pl = .loop) : GP cfg (reindexStep s) := by
   obtain ⟨rl, rf, rc1, rc2, rk, rcq⟩ := hI
   unfold reindexStep
-  split <;> (constructor <;> dsimp only <;> (first | assumption | (gpsimp; done)))
+  split
+  · split <;> (constructor <;> dsimp only <;> (first | assumption | (gpsimp; done)))
+  · constructor <;> dsimp only <;> (first | assumption | (gpsimp; done))
 
 theorem gp_notifyAllCm {cfg : Cfg} {s : St} (hI : GP cfg s) : GP cfg (notifyAllCm s) :=
   ⟨hI.rl, hI.rf, hI.rc1, hI.rc2, hI.rk, hI.rcq⟩
@@ -150,7 +152,7 @@ theorem gp_tickL {cfg : Cfg} {s s' : St} (hG : G1 s) (hI : GP cfg s) (h : tickL 
   unfold tickL at h
   split at h
   · cases h
-    apply gp_reindexStep
+    apply gp_reindexStep _ rfl
     constructor <;> dsimp only <;> (first | assumption | (gpsimp; done))
   · split at h
     · split at h <;> gpfin
@@ -171,8 +173,9 @@ theorem gp_tickL {cfg : Cfg} {s s' : St} (hG : G1 s) (hI : GP cfg s) (h : tickL 
   · gpfin
   · gpfin
   · cases h
-    apply gp_reindexStep
+    apply gp_reindexStep _ rfl
     constructor <;> dsimp only <;> (first | assumption | (gpsimp; done))
+  · gpfin
   · rename_i e hp
     obtain ⟨⟨s1, n⟩, he, hs⟩ := map_some h
     subst hs
@@ -345,15 +348,15 @@ theorem gp_init (cfg : Cfg) (n r : Nat) : GP cfg (init cfg n r) := by
   split <;> (constructor <;> dsimp only <;> simp [RL, RF, RC1, RC2, RK, RCQ])
 
 set_option maxHeartbeats 800000 in
-theorem gp_step {cfg : Cfg} (hw : cfg.workers = true) {s s' : St} {a : Act} (hG : G1 s) (hI : GP cfg s)
-    (h : step cfg s a = some s') : GP cfg s' := by
-  have hG' := g1_step hw hG h
+theorem gp_step {cfg : Cfg} (hw : cfg.workers = true) {s s' : St} {a : Act} (hnp : a.isPanic = false) (hG : G1 s)
+    (hI : GP cfg s) (h : step cfg s a = some s') : GP cfg s' := by
+  have hG' := g1_step hw hnp hG h
   cases a with
   | tick t =>
     cases t
     · exact gp_tickL hG hI h
     · exact gp_tickF hG hI h
-    · exact gp_tickC hG hI h
+    · exact gp_tickC hG hI (tickCg_some h)
     · exact gp_tickK hG hI h
     · exact gp_tickD hG hG' h
   | cmTick i => exact gp_tickCm hI h
@@ -386,10 +389,33 @@ theorem gp_step {cfg : Cfg} (hw : cfg.workers = true) {s s' : St} {a : Act} (hG 
   | apiFlush => simp [step, hw] at h
   | apiEnact => simp [step, hw] at h
   | apiClean => simp [step, hw] at h
+  | defer =>
+    obtain ⟨rl, rf, rc1, rc2, rk, rcq⟩ := hI
+    simp only [step] at h
+    split at h
+    · split at h <;> gpfin
+    · cases h
+  | panic t => cases hnp
+  | iterHold | iterRelease | dropEnacted k | makeCycle =>
+    simp only [step] at h
+    split at h
+    · cases h; exact ⟨hI.rl, hI.rf, hI.rc1, hI.rc2, hI.rk, hI.rcq⟩
+    · cases h
+  | lockTree | unlockTree =>
+    simp only [step] at h
+    cases h; exact ⟨hI.rl, hI.rf, hI.rc1, hI.rc2, hI.rk, hI.rcq⟩
+  | grow k =>
+    simp only [step] at h
+    split at h
+    · cases h; exact ⟨hI.rl, hI.rf, hI.rc1, hI.rc2, hI.rk, hI.rcq⟩
+    · split at h
+      · cases h; exact ⟨hI.rl, hI.rf, hI.rc1, hI.rc2, hI.rk, hI.rcq⟩
+      · cases h
+    · cases h
 
 theorem gp_reachable {cfg : Cfg} (hw : cfg.workers = true) {n r : Nat} {s : St}
     (h : Reachable cfg n r s) : G1 s ∧ GP cfg s :=
   reachable_induction (fun s => G1 s ∧ GP cfg s) ⟨g1_init cfg hw n r, gp_init cfg n r⟩
-    (fun _ _ _ hI hs => ⟨g1_step hw hI.1 hs, gp_step hw hI.1 hI.2 hs⟩) s h
+    (fun _ _ _ hnp hI hs => ⟨g1_step hw hnp hI.1 hs, gp_step hw hnp hI.1 hI.2 hs⟩) s h
 
 end Pdb.Conc.Pipe
